@@ -213,9 +213,11 @@ def _key_getter(ctx, model):
                    "commutative nodes: (type, multiset of children)" if ok else
                    "the key of a Sum/Product is not (type(expr), "
                    "frozenset(child counts))")
-    src = ast.unparse(mem.node).replace(" ", "")
-    ok = "kid_count[child]=kid_count.get(child,0)+1" in src and \
-        "forchildinexpr.children" in src
+    from ..rules import counter_writes
+    CH = ("elem", ("attr", NODE, "children"))
+    cw = counter_writes(summarize(mem.node, loop_mode="1"),
+                        key_pred=lambda k: k == CH)
+    ok = bool(cw) and all(kind == "incr" for _, _, kind in cw)
     ctx.ob("T/NormalizedKeyGetter/counts-every-child", ok, loc,
            "multiplicities of all children are counted" if ok else
            "child multiplicities are not counted over all children")
@@ -252,8 +254,12 @@ def _use_count(ctx, model):
                    "UseCountMapper.visit does not return True for a new key")
     ctx.ob("P/UseCountMapper.visit/paths", saw == {"repeat", "new"}, loc,
            f"paths {sorted(saw)}")
-    src = ast.unparse(mem.node).replace(" ", "")
-    ok = "self.subexpr_counts[key]+=1" in src and "self.subexpr_counts[key]=1" in src
+    from ..rules import counter_writes
+    cw = counter_writes(summarize(mem.node))
+    kinds = {kind for t, k, kind in cw if t == "self.subexpr_counts"}
+    ok = kinds == {"incr", "init1"} and all(
+        k == ("call", "self.get_key", (NODE,), ()) for t, k, _ in cw
+        if t == "self.subexpr_counts")
     ctx.ob("P/UseCountMapper.visit/counts", ok, loc,
            "counts start at 1 and are incremented by 1")
 
@@ -441,9 +447,12 @@ def _tagger(ctx, model):
            "whose child occurs more than once becomes CSE(CSE(child))")
     # histogram counts every visit
     v = wm.members.get("visit")
-    src = ast.unparse(v.node).replace(" ", "")
-    ok = "self.subexpr_histogram[expr]=self.subexpr_histogram.get(expr,0)+1" in src \
-        and "returnTrue" in src
+    from ..rules import counter_writes
+    vps = summarize(v.node)
+    cw = [x for x in counter_writes(vps) if x[0] == "self.subexpr_histogram"]
+    ok = bool(cw) and all(k == NODE and kind == "incr" for _, k, kind in cw) \
+        and all(ps.retval == ("const", True) for ps in vps
+                if ps.term == "return") and any(ps.term == "return" for ps in vps)
     ctx.ob("P/CSEWalkMapper.visit/histogram", ok, where(v),
            "every visit increments the node's count")
 
